@@ -236,9 +236,10 @@ def boundsUndefined (scan : List Triple) (glo ghi : Option Int) (cs : List Claus
     match cs[i]? with
     | none => false
     | some c =>
-      (c.pLowerAlias ≠ [] || c.pUpperAlias ≠ []) &&
-      (solutions scan glo ghi (cs.take i)).any fun r =>
-        (c.pLowerAlias ≠ [] && (rowTime r c.pLowerAlias).isNone) || (c.pUpperAlias ≠ [] && (rowTime r c.pUpperAlias).isNone)
+      (c.pLowerAlias ≠ [] || c.pUpperAlias ≠ [] || c.oLowerAlias ≠ [] || c.oUpperAlias ≠ []) &&
+      (solutionsO scan glo ghi (cs.take i)).any fun r =>
+        (c.pLowerAlias ≠ [] && (rowTime r c.pLowerAlias).isNone) || (c.pUpperAlias ≠ [] && (rowTime r c.pUpperAlias).isNone) ||
+        (c.oLowerAlias ≠ [] && (rowTime r c.oLowerAlias).isNone) || (c.oUpperAlias ≠ [] && (rowTime r c.oUpperAlias).isNone)
 
 /-- Reference pipeline: the solutions of the pattern (join over a scan), then the declarative stages:
     one row per group with its aggregates, rows satisfying HAVING, sorted permutation, first n. -/
@@ -250,7 +251,7 @@ def runSpec (st : St) (q : Stmt) (having : List HTok) : String :=
     if !q.filters.isEmpty then "unsupported" else
     let scan : List Triple := gs.flatMap fun g => g.master.filterMap fun v => st.triple v.id
     if boundsUndefined scan (q.lower.map (·.nanos)) (q.upper.map (·.nanos)) q.clauses then "unsupported" else
-    let sols := solutions scan (q.lower.map (·.nanos)) (q.upper.map (·.nanos)) q.clauses
+    let sols := solutionsO scan (q.lower.map (·.nanos)) (q.upper.map (·.nanos)) q.clauses
     let cols := dedup q.outputBindings
     let staged : Except QErr (List Row) :=
       if q.groupBy.isEmpty then .ok (sols.map (project q.projs)) else groupReduceWith sumExact S floatAddBits q sols
